@@ -155,6 +155,19 @@ func (w *Reconciler) sync(
 	}
 	rj = updatedRj
 
+	// A Job that was already reported as finished never becomes unfinished again.
+	// Its status could otherwise be recomputed as not finished when a task is
+	// adopted that had been created from an outdated view of the Job (i.e. before
+	// the cache showed that the Job was complete); such tasks are still recorded,
+	// and stopped if they are no longer needed.
+	if finished := cachedRj.Status.Condition.Finished; finished != nil && rj.Status.Condition.Finished == nil {
+		newRj := rj.DeepCopy()
+		newRj.Status.Condition = execution.JobCondition{Finished: finished.DeepCopy()}
+		newRj.Status.State = getJobStateFromCondition(newRj.Status.Condition)
+		newRj.Status.Phase = jobutil.GetPhase(newRj)
+		rj = newRj
+	}
+
 	// Clean up Job if it is finished and beyond its TTL. Only do so once the
 	// finished condition was already persisted (i.e. it is present in the cached
 	// Job): deleting the Job first makes the subsequent status update conflict, and
